@@ -155,6 +155,8 @@ def _run(item: Tuple[int, str, Any]) -> Tuple[int, str, Dict[str, Any]]:
         signal.alarm(timeout)
         try:
             res = _MOD.run_job(job, _TIER)
+            for v in res['violations']:
+                v.setdefault('job', job)
         finally:
             signal.alarm(0)
     except JobTimeout:
@@ -314,7 +316,7 @@ def run_check(prop: str, tier: str, workers: int = 16, only_label: Optional[str]
         os.makedirs(replay_dir, exist_ok=True)
         path = os.path.join(replay_dir, hashlib.sha1(s.encode()).hexdigest()[:12] + '.json')
         with open(path, 'w', encoding='utf-8') as fh:
-            json.dump({'property': prop, 'sig': s, 'what': _jsonable(v['what']), 'case': _jsonable(v['case'], None),
+            json.dump({'property': prop, 'sig': s, 'what': _jsonable(v['what']), 'case': _jsonable(v['case'], None), 'job': _jsonable(v.get('job'), None),
                        'cases_with_this_sig': len(by_sig[s]), 'tier': tier, 'repo_head': repo_head()}, fh, indent=1, ensure_ascii=True)
         # confirm in a fresh process: the same case must fail the same way again
         if os.environ.get('VERIF_NO_CONFIRM'):
@@ -322,10 +324,28 @@ def run_check(prop: str, tier: str, workers: int = 16, only_label: Optional[str]
         else:
             p = subprocess.run([os.path.join(HOME, 'check'), prop, '--replay', path], capture_output=True, text=True)
             ok = p.returncode == 1
+            if not ok:
+                # the simplest case may owe its failure to evaluations of an EARLIER job in its worker: try exemplars from other jobs,
+                # preferring jobs in which the signature occurred most often (their own evaluations suffice to set the state up)
+                per_job: Dict[str, List[Dict[str, Any]]] = {}
+                for v2 in by_sig[s]:
+                    per_job.setdefault(repr(v2.get('job')), []).append(v2)
+                for _, vs2 in sorted(per_job.items(), key=lambda kv: -len(kv[1]))[:4]:
+                    v2 = min(vs2, key=lambda x: len(repr(x['case'])))
+                    with open(path, 'w', encoding='utf-8') as fh:
+                        json.dump({'property': prop, 'sig': s, 'what': _jsonable(v2['what']), 'case': _jsonable(v2['case'], None), 'job': _jsonable(v2.get('job'), None),
+                                   'cases_with_this_sig': len(by_sig[s]), 'tier': tier, 'repo_head': repo_head()}, fh, indent=1, ensure_ascii=True)
+                    p = subprocess.run([os.path.join(HOME, 'check'), prop, '--replay', path], capture_output=True, text=True)
+                    if p.returncode == 1:
+                        ok, v = True, v2
+                        break
         if ok:
             confirmed += 1
             out_lines.append(f'VIOLATION property={prop} replay={path}')
             out_lines.append(f'  sig={s} cases={len(by_sig[s])} :: {v["what"]}'[:600])
+            if not os.environ.get('VERIF_NO_CONFIRM') and 'HISTORY-DEPENDENT' in p.stdout:
+                out_lines.append('  history-dependent: the case alone passes in a fresh process; it fails after the evaluations that precede it in its job '
+                                 '(state leaking between evaluations in one process) - the replay file re-runs the job')
             exit_code = 1
         else:
             unconfirmed.append(s)
@@ -421,4 +441,20 @@ def run_replay(prop: str, path: str) -> int:
         print(f'  (other signature(s) now: {sorted(set(v["sig"] for v in vs))[:5]})')
         print(f'VIOLATION property={prop} replay={path}')
         return 1
+    if data.get('job') is not None and want:
+        # second stage: the evaluations of the whole job, in order, in this fresh process (a defect that needs earlier evaluations in the same process)
+        global _MOD, _TIER
+        _MOD, _TIER = mod, data.get('tier', 'quick')
+        res = mod.run_job(_tuplify(unjson(data['job'])), _TIER)
+        hit = [v for v in res['violations'] if v['sig'] == want]
+        print(f'[{prop}] replay of the whole job: {len(res["violations"])} violation(s), {len(hit)} with the recorded signature')
+        if hit:
+            print(f'  sig={hit[0]["sig"]} :: {hit[0]["what"]}'[:1500])
+            print(f'HISTORY-DEPENDENT property={prop} sig={want}')
+            print(f'VIOLATION property={prop} replay={path}')
+            return 1
     return 0
+
+
+def _tuplify(x: Any) -> Any:
+    return tuple(_tuplify(v) for v in x) if isinstance(x, list) else x
